@@ -32,6 +32,7 @@ type caseInfo struct {
 	nested    bool // some rule issues mutations
 	nthRules  bool // some rule depends on the call count
 	handlers  bool
+	detach    bool // some handler detaches a binding
 }
 
 func parseCaseInfo(c Case, sch *Schema) caseInfo {
@@ -53,6 +54,9 @@ func parseCaseInfo(c Case, sch *Schema) caseInfo {
 				if t[3] != "*" {
 					ci.nthRules = true
 				}
+				if strings.HasPrefix(t[4], "detach:") {
+					ci.detach = true
+				}
 				if len(t) > 5 {
 					ci.nested = true
 				}
@@ -60,6 +64,33 @@ func parseCaseInfo(c Case, sch *Schema) caseInfo {
 		}
 	}
 	return ci
+}
+
+// alwaysFalse returns the (bind/name) keys whose every call returns false
+// (a single `* f` rule and no nth-specific rule).
+func alwaysFalse(c Case) map[string]bool {
+	star := map[string]string{}
+	specific := map[string]bool{}
+	for _, l := range c.Lines {
+		t := strings.Fields(l)
+		if len(t) >= 5 && t[0] == "rule" {
+			k := t[1] + "/" + t[2]
+			if t[3] == "*" {
+				if _, ok := star[k]; !ok {
+					star[k] = t[4]
+				}
+			} else {
+				specific[k] = true
+			}
+		}
+	}
+	out := map[string]bool{}
+	for k, a := range star {
+		if a == "f" && !specific[k] {
+			out[k] = true
+		}
+	}
+	return out
 }
 
 func splitTx(obs []OpObs) []txObs {
@@ -480,7 +511,7 @@ func Monitor(prop string, c Case, sch *Schema, obs []OpObs) []Failure {
 						} else if bef[i] && !aft[i] {
 							want = fmt.Sprintf("%d/end:%d", b, i)
 						}
-						if want != "" && defined[want] && count[want] != 1 {
+						if want != "" && defined[want] && count[want] != 1 && !ci.detach {
 							add(tx.Line, "", "final handler %s ran %d times", want, count[want])
 						}
 					}
@@ -516,10 +547,18 @@ func Monitor(prop string, c Case, sch *Schema, obs []OpObs) []Failure {
 						for q := p + 1; q < len(order); q++ {
 							x, y := order[p], order[q] // x ran before y
 							if contains(sch.Defs[x].After, y) || contains(sch.Defs[x].Require, y) {
-								add(tx.Line, "C05-order-after-not-strict-weak",
+								add(tx.Line, sigC05After(sch, tx.TF.Active, obs[0].Out),
 									"state %d ran before %d although it is After/Requires it", x, y)
 							}
 						}
+					}
+				}
+			}
+			if !tx.TI.IsAuto && tx.TE.Acc {
+				af := alwaysFalse(c)
+				for _, h := range tx.HBefore {
+					if af[fmt.Sprintf("%d/%s", h.Bind, h.HName)] {
+						add(tx.Line, "", "negotiation handler %s returned false but the transition was accepted", h.HName)
 					}
 				}
 			}
@@ -552,9 +591,36 @@ func Monitor(prop string, c Case, sch *Schema, obs []OpObs) []Failure {
 						fmt.Sscan(p[1], &i)
 						fmt.Sscan(p[2], &j)
 						touched[j] = true
-					} else if h.HName == "anyenter" || strings.HasPrefix(h.HName, "exit:") {
-						for s := 0; s < n; s++ {
-							touched[s] = true
+					}
+				}
+				af := alwaysFalse(c)
+				bef := setOf(tx.TI.Before)
+				for _, h := range tx.HBefore {
+					if !af[fmt.Sprintf("%d/%s", h.Bind, h.HName)] {
+						continue
+					}
+					st := -1
+					p := strings.Split(h.HName, ":")
+					switch p[0] {
+					case "enter":
+						fmt.Sscan(p[1], &st)
+					case "trans":
+						if p[1] != p[2] {
+							fmt.Sscan(p[2], &st)
+						}
+					}
+					if st >= 0 && st < n && aft[st] && !bef[st] && tx.TE.Acc {
+						// legitimately back only through an Add relation of another
+						// accepted state (the re-resolution drops it from the called
+						// list, not from the Add relations)
+						var others []int
+						for _, q := range tx.TI.Called {
+							if q != st {
+								others = append(others, q)
+							}
+						}
+						if !addClosure(sch, append(others, tx.TI.Before...))[st] {
+							add(tx.Line, "", "auto state %d was vetoed by %s but ended up active", st, h.HName)
 						}
 					}
 				}
@@ -700,6 +766,23 @@ func Monitor(prop string, c Case, sch *Schema, obs []OpObs) []Failure {
 		}
 	}
 	return fails
+}
+
+// sigC05After: the order violation is explained by the recorded finding iff
+// some state of the applied target lists another one in After (the second sort
+// pass is then not the identity) or the Require topology is empty (cycle).
+func sigC05After(sch *Schema, target []int, schemaOut string) string {
+	if strings.HasSuffix(strings.TrimSpace(schemaOut), "topo=-") {
+		return "C05-order-after-not-strict-weak"
+	}
+	for _, x := range target {
+		for _, y := range target {
+			if contains(sch.Defs[x].After, y) {
+				return "C05-order-after-not-strict-weak"
+			}
+		}
+	}
+	return ""
 }
 
 // ---- an independent re-implementation of the resolver's first passes, used
